@@ -8,6 +8,7 @@ buffer — is what is proved here, for every segmentation of the byte stream, ev
 buffer capacity and every record length.
 -/
 import PubModel.C14.Lemmas
+import PubModel.C14.HelloTheorems
 import PubModel.Gen.Hello
 
 namespace PubModel.C14
@@ -178,6 +179,21 @@ theorem helloInfo_exact_gen {α : Type} (parse : Bytes → α) (src : List Bytes
     (helloInfo parse { buf := [], src := src, cap := Gen.Hello.peekBuf }).2 = .ok (parse rec) :=
   helloInfo_exact parse _ rec rest hs (by simp) (by simpa [BR.pending] using hpend) hlen5 htls hrec
     (Nat.le_trans h16 gen_peek_buffer_fits_record)
+
+/-- **The proxy reports exactly the name and first ALPN protocol the hello contains**: for
+    every well-formed ClientHello description (any session id, cipher list, other extensions,
+    padding) whose record fits the buffer, however the bytes are split across reads and
+    whatever follows the hello on the connection, `HelloInfo` with the modelled TLS grammar
+    returns the hello's own server name, ALPN count and first protocol. -/
+theorem hello_name_exact (r : BR) (h : Hello.Desc) (hw : Hello.WF h) (rest : Bytes)
+    (hs : Segs r.src) (hbuf : r.buf.length ≤ r.cap) (hpend : r.pending = Hello.build h ++ rest)
+    (hfit : (Hello.build h).length ≤ r.cap) :
+    (helloInfo Hello.sniff r).2 =
+      .ok (some ⟨h.sni.getD [], h.alpn.length, h.alpn.headD []⟩) := by
+  obtain ⟨h5, h22, hlen⟩ := Hello.build_shape h hw
+  have := helloInfo_exact Hello.sniff r (Hello.build h) rest hs hbuf hpend h5 h22
+    (by unfold recLen; omega) hfit
+  rw [this, Hello.sniff_build h hw]
 
 /-! ### non-vacuity -/
 
